@@ -31,13 +31,26 @@ pub const KINDS: [ErrorKind; 4] = [ErrorKind::Other, ErrorKind::TimedOut, ErrorK
 /// Errors that come from the operating system (they carry an errno, no payload): EAGAIN, ETIMEDOUT, EIO, EPIPE.
 pub const OS_ERRORS: [i32; 4] = [11, 110, 5, 32];
 
-/// The error `Step::Error(k)` stands for: a custom one of `KINDS[k]` for k < 4, an OS one otherwise.
+/// Hard errors whose payload is itself an `io::Error` of kind Interrupted (an adapter wrapping what it got from below):
+/// what counts is the kind of the error the reader returned, not of anything inside it.
+pub const WRAPPING: [ErrorKind; 4] = [ErrorKind::Other, ErrorKind::TimedOut, ErrorKind::Other, ErrorKind::UnexpectedEof];
+
+/// The error `Step::Error(k)` stands for: a custom one of `KINDS[k]` for k < 4, an OS one for k < 8, otherwise a
+/// custom one of `WRAPPING[k - 8]` around an Interrupted `io::Error` (custom, bare kind, EINTR from the OS, custom).
 pub fn scripted_error(k: u8, msg: String) -> std::io::Error {
-    let k = k as usize % (KINDS.len() + OS_ERRORS.len());
+    let k = k as usize % (KINDS.len() + OS_ERRORS.len() + WRAPPING.len());
     if k < KINDS.len() {
         std::io::Error::new(KINDS[k], msg)
-    } else {
+    } else if k < KINDS.len() + OS_ERRORS.len() {
         std::io::Error::from_raw_os_error(OS_ERRORS[k - KINDS.len()])
+    } else {
+        let w = k - KINDS.len() - OS_ERRORS.len();
+        let inner = match w {
+            1 => std::io::Error::from(ErrorKind::Interrupted),
+            2 => std::io::Error::from_raw_os_error(4),
+            _ => std::io::Error::new(ErrorKind::Interrupted, msg),
+        };
+        std::io::Error::new(WRAPPING[w], inner)
     }
 }
 
@@ -91,9 +104,16 @@ impl std::io::Read for FaultReader<'_> {
             Step::Interrupted => {
                 self.log.push((buf.len(), None));
                 let msg = format!("scripted EINTR (call #{})", self.log.len());
-                self.last_error = Some(msg.clone());
-                self.last_raw = None;
-                return Err(std::io::Error::new(ErrorKind::Interrupted, msg));
+                // An interruption is an error whose own kind is Interrupted, whatever it is made of: built by the
+                // caller, EINTR from the operating system, or wrapped around some other error.
+                let e = match (self.log.len() + self.data.len()) % 4 {
+                    1 => std::io::Error::from_raw_os_error(4),
+                    2 => std::io::Error::new(ErrorKind::Interrupted, std::io::Error::new(ErrorKind::Other, msg)),
+                    _ => std::io::Error::new(ErrorKind::Interrupted, msg),
+                };
+                self.last_error = Some(e.to_string());
+                self.last_raw = e.raw_os_error();
+                return Err(e);
             }
             Step::Error(k) => {
                 self.log.push((buf.len(), None));
@@ -428,7 +448,7 @@ fn step() -> impl Strategy<Value = Step> {
         2 => Just(Step::DeliverAll),
         3 => Just(Step::Interrupted),
         1 => Just(Step::Eof),
-        2 => (0u8..8).prop_map(Step::Error),
+        2 => (0u8..12).prop_map(Step::Error),
     ]
 }
 
@@ -635,7 +655,7 @@ fn replay(_ctx: &Ctx, group: &str, case: &Value) -> CaseResult {
 pub fn def() -> PropDef {
     PropDef {
         id: "C17",
-        rule: "A case is a reader fault script over {deliver k bytes, deliver all, Interrupted, end of file, hard error of four kinds, built by the caller (with a message) or coming from the operating system (EAGAIN, ETIMEDOUT, EIO, EPIPE: an errno, no payload)} (end of file after the script), a count from {0,1,2,3,7,4096,70000,0..600}, an attempt limit 1..6, an arena state (fresh, pre-sized, 0..3 bytes left in the current chunk) and an entry point (ByteArena::read_n, Encoder::read_n, Decoder::read_n); codec-read cases are sequences of encode_read / decode_read calls each with its own script; large-read-sequences are 1..4 reads in a row on one arena, optionally warmed up with ensure_capacity calls, with counts around the arena's chunk sizes (256 KiB .. 2 MiB, exactly 2^19 / 2^20 and +-1), all returned slices kept, compared and checked for overlap. The reader records the buffer size of every call. Oracle: a reference loop written from the documentation predicts the number of calls (<= attempts), the size offered in each call (count - delivered so far), where it stops (end of file, first non-interrupt error, count reached), the returned bytes and Ok/Err (Err with the last error's kind iff nothing was delivered and end of file did not come first); count 0 means no call and an empty slice; a following read does not overlap or change the returned slice; read_n alone leaves the codec output untouched and after encode_read / decode_read calls the final output is the reference encoding / decoding of exactly the delivered bytes. exhaustive-scripts enumerates all scripts up to length 4 (5) over 7 steps x 7 counts x 6 attempt limits x 5 (entry point, arena state) pairs. Non-trivial: the executed part of the script mixes >= 2 kinds of step and the read is short or failed. Distinct: hash of the serialised case / by enumeration.",
+        rule: "A case is a reader fault script over {deliver k bytes, deliver all, Interrupted, end of file, hard error of four kinds, built by the caller (with a message), coming from the operating system (EAGAIN, ETIMEDOUT, EIO, EPIPE: an errno, no payload) or built by the caller around an io::Error of kind Interrupted; an Interrupted step is a caller-built error, EINTR from the operating system or an Interrupted error wrapped around another one, in turn} (end of file after the script), a count from {0,1,2,3,7,4096,70000,0..600}, an attempt limit 1..6, an arena state (fresh, pre-sized, 0..3 bytes left in the current chunk) and an entry point (ByteArena::read_n, Encoder::read_n, Decoder::read_n); codec-read cases are sequences of encode_read / decode_read calls each with its own script; large-read-sequences are 1..4 reads in a row on one arena, optionally warmed up with ensure_capacity calls, with counts around the arena's chunk sizes (256 KiB .. 2 MiB, exactly 2^19 / 2^20 and +-1), all returned slices kept, compared and checked for overlap. The reader records the buffer size of every call. Oracle: a reference loop written from the documentation predicts the number of calls (<= attempts), the size offered in each call (count - delivered so far), where it stops (end of file, first non-interrupt error, count reached), the returned bytes and Ok/Err (Err with the last error's kind iff nothing was delivered and end of file did not come first); count 0 means no call and an empty slice; a following read does not overlap or change the returned slice; read_n alone leaves the codec output untouched and after encode_read / decode_read calls the final output is the reference encoding / decoding of exactly the delivered bytes. exhaustive-scripts enumerates all scripts up to length 4 (5) over 7 steps x 7 counts x 6 attempt limits x 5 (entry point, arena state) pairs. Non-trivial: the executed part of the script mixes >= 2 kinds of step and the read is short or failed. Distinct: hash of the serialised case / by enumeration.",
         assumptions: &["readers never deliver more than the buffer they are given", "reference codec of C07 for the codec-read outputs"],
         exhaustive_note: Some("exhaustive-scripts: complete enumeration"),
         shards: |t: Tier| t.pick(8, 16),
